@@ -8,7 +8,7 @@ use log::warn;
 
 use crate::{
     backend::decrypt::DecryptWriteBackend,
-    blob::BlobId,
+    blob::{BlobId, BlobType},
     error::RusticResult,
     repofile::indexfile::{IndexFile, IndexPack},
 };
@@ -38,8 +38,9 @@ where
     count: usize,
     /// The time the indexer was created.
     created: SystemTime,
-    /// The set of indexed blob ids.
-    indexed: Option<BTreeSet<BlobId>>,
+    /// The set of indexed blobs. Blobs are identified by type and id: a data blob and a
+    /// tree blob can have the same id (a file whose content equals a serialized tree).
+    indexed: Option<BTreeSet<(BlobType, BlobId)>>,
 }
 
 impl<BE: DecryptWriteBackend> Indexer<BE> {
@@ -159,7 +160,7 @@ impl<BE: DecryptWriteBackend> Indexer<BE> {
 
         if let Some(indexed) = &mut self.indexed {
             for blob in &pack.blobs {
-                _ = indexed.insert(blob.id);
+                _ = indexed.insert((blob.tpe, blob.id));
             }
         }
 
@@ -181,10 +182,11 @@ impl<BE: DecryptWriteBackend> Indexer<BE> {
     ///
     /// # Arguments
     ///
+    /// * `tpe` - The blob type to check.
     /// * `id` - The id to check.
-    pub fn has(&self, id: &BlobId) -> bool {
+    pub fn has(&self, tpe: BlobType, id: &BlobId) -> bool {
         self.indexed
             .as_ref()
-            .is_some_and(|indexed| indexed.contains(id))
+            .is_some_and(|indexed| indexed.contains(&(tpe, *id)))
     }
 }
